@@ -258,7 +258,16 @@ def _parameter_loops(ck: Check, prog: Program) -> None:
             if (isinstance(inner.ops[0], ast.NotIn)) == p_:
                 in_ok = True
         elif isinstance(inner, ast.Call) and dotted(inner.func) == 'self._exclude_param' and not p_:
-            pred_ok = True
+            # ExcludeFunc(name, annotation, default): the name the docstring gives is the first argument
+            a0 = inner.args[0] if inner.args and not isinstance(inner.args[0], ast.Starred) else \
+                next((k.value for k in inner.keywords if k.arg in ('name', 'param_name')), None)
+            if a0 is not None and norm(a0).endswith('.arg_name'):
+                pred_ok = True
+            else:
+                ck.finding('EXCL-AGREE', dm.qualname, 'exclusion predicate is not asked about the parameter name', dm.module.rel, inner.lineno,
+                           f'`{norm(inner)}`: the exclusion predicate is called as (name, annotation, default) by the binder; here its first '
+                           f'argument is `{norm(a0) if a0 is not None else "missing"}`, not the documented parameter\'s name, so a predicate that selects by '
+                           f'name never matches and the injected parameter is published as a client parameter')
     ok_d = in_ok and pred_ok
     ck.ob('EXCL-AGREE', 'docstring documenter: a parameter is listed iff its name is not in exclude and the predicate does not select it', ok_d)
     if not ok_d:
